@@ -72,6 +72,9 @@ def _data(case):
     Y = Y + 0.7 * np.roll(Y, 1, axis=1) + 0.3 * rng.normal(size=(1, N))
     if case["share"] and case["n_ref"] <= case["n_all"]:
         R = Y[: case["n_ref"]].copy()
+        if case["seed"] % 3 == 0 and case["n_ref"] >= 2:
+            # the references are the data channels, but only the first one sits at its own position
+            R[1:] = R[1:][::-1] if case["n_ref"] >= 3 else rng.normal(size=(1, N)) + 0.5 * Y[:1]
     else:
         R = rng.normal(size=(case["n_ref"], N)) + 0.5 * Y[:1]
     return Y, R
